@@ -107,7 +107,7 @@ def r_budget(ctx):
                     first_pos = [e for e in p.events if e.kind == "call" and any(k == "pos" for k, ks in e.d["effects"] if S in ks)]
                     want = ("call", "std::io::SeekFrom::Start", (unmut(first_pos[0].d["ret"]),), None) if first_pos else None
                     start_ok = any(a[0] == "call" and a[1] == "std::io::SeekFrom::Start" and want and a[2] == want[2] for a in v[2] if isinstance(a, tuple) and a)
-                    comp_ok = V("param:compression") in v[2] and V("param:all_entries") in v[2]
+                    comp_ok = role_param(fa, f, "compression") in v[2] and role_param(fa, f, "entries") in v[2]
                 else:
                     comp_ok = False
                 obs.append(Ob("R-BUDGET", fn, "overflow path delegates to a budget-checked strategy with the remembered start", ok and start_ok and comp_ok,
@@ -231,8 +231,8 @@ def r_leafptr(ctx):
                 for t in subterms(dterm):
                     if t[0] == "elem" and is_call_to(t[1], lambda s: s.endswith("::chunks")):
                         chunk = t
-                ok_chunk = chunk is not None and chunk[1][2][0] == V("param:all_entries")
-                obs.append(Ob("R-LEAFPTR", fn, "leaf = directory of the current chunk of all entries, same compression", ok_chunk and unmut(lw.d["args"][2]) == V("param:compression"),
+                ok_chunk = chunk is not None and chunk[1][2][0] == role_param(fa, f, "entries")
+                obs.append(Ob("R-LEAFPTR", fn, "leaf = directory of the current chunk of all entries, same compression", ok_chunk and unmut(lw.d["args"][2]) == role_param(fa, f, "compression"),
                               "leaf directory = %s" % tstr(dterm)[:120], lw.loc()))
                 tid = struct_field(ent, "tile_id")
                 ok_tid = chunk is not None and tid == ("f", ("idx", chunk, C(0)), "tile_id")
